@@ -98,8 +98,11 @@ func init() {
 	Register(&Check{ID: "C02", Level: "exploration",
 		Rule: "one case = one generated workflow (no streaming) with a tape-chosen subset of its output files placed on disk before the run (arbitrary bytes incl. empty, with or without audit file, possibly splitting a multi-output task), run under one schedule; or the history 'complete run, run again in place'. Oracle: no start event for any task one of whose outputs pre-existed; (inode, mtime, size, bytes) of every pre-existing file unchanged; when no task is split: exit 0 and every downstream output equals the reference evaluated WITH the pre-existing bytes; second run: empty trace, nothing changed. Round 5: windows in which descriptor-opening calls fail with EMFILE (safety clauses only); a process whose output path equals its input path. distinct = event-log hash; non-trivial = >=1 pre-existing file or a second run, >=1 task executed or skipped, >=1 non-default choice",
 		Run: func(c *Case) Verdict {
-			if c.Tape.Choose(simrt.StGen, 12, 0) == 1 {
+			switch c.Tape.Choose(simrt.StGen, 12, 0) {
+			case 1:
 				return inPlaceCase(c)
+			case 2:
+				return rerunShapesCase(c)
 			}
 			w := Generate(c.Tape, tierProfile(profC02, c.Tier))
 			ex0 := Eval(w)
@@ -297,6 +300,92 @@ func init() {
 			}
 			return flowOracle(inc, ex)
 		}})
+}
+
+// rerunShapesCase: complete run, then run again, for three shapes the generated
+// graphs lack: (a) two instances of the finished workflow re-run concurrently in
+// one program; (b) scipipe's default output names when they get long (source
+// names of ~190 characters); (c) out-ports that exist through SetOut only (the
+// command names its files itself). The second run executes no command and
+// changes no output file.
+func rerunShapesCase(c *Case) Verdict {
+	t := c.Tape
+	w := &WF{Name: "wf", Sources: map[string]string{}, MaxTasks: 1 + t.Choose(simrt.StGen, 4, 0), Bufsize: bufsizeOf(t)}
+	shape := t.Choose(simrt.StGen, 3, 0)
+	n := 1 + t.Choose(simrt.StGen, 3, 0)
+	src := Node{Name: "src0", Kind: KFileSrc}
+	for i := 0; i < n; i++ {
+		p := fmt.Sprintf("src0_%d.txt", i)
+		if shape == 1 {
+			p = fmt.Sprintf("sample_%d_%s.txt", i, strings.Repeat("n", 170+t.Choose(simrt.StGen, 12, 0)))
+		}
+		src.Files = append(src.Files, p)
+		w.Sources[p] = fmt.Sprintf("source %d\n", i)
+	}
+	e := Edge{addNode(w, src), "out"}
+	a := oneToOne(w, "pa", e)
+	b := oneToOne(w, "pb", Edge{a, "o0"})
+	what := ""
+	switch shape {
+	case 0:
+		what = "two instances re-run concurrently"
+	case 1:
+		what = "long default output names"
+		w.Nodes[a].Outs[0].Pattern = ""
+		w.Nodes[b].Outs[0].Pattern = ""
+	default:
+		what = "out-ports made by SetOut only"
+		w.Nodes[a].OutNotInCmd = true
+		w.Nodes[a].Outs[0].Pattern = "{i:a|basename}.pa.o0"
+		if t.Choose(simrt.StGen, 2, 0) == 1 {
+			w.Nodes[b].OutNotInCmd = true
+			w.Nodes[b].Outs[0].Pattern = "{i:a|basename}.pb.o0"
+		}
+	}
+	c.Sample = "run twice, " + what + ": " + sample(w)
+	if len(c.Sample) > 1500 {
+		c.Sample = c.Sample[:1500] + "..."
+	}
+	c.Probe("rerun-shape-" + strings.Fields(what)[0])
+	inc1 := RunInc(w, c.Tape, nil, 0, IncOpts{KillAt: -1, Strategy: strategyOf(c.Tape), Trace: c.Trace})
+	c.Absorb(inc1)
+	if v, ok := inconclusiveEnd(inc1); ok {
+		return v
+	}
+	if !completedOK(inc1) || len(execKeys(inc1.Sim.Shell.Trace, "exit", 0)) != 2*n {
+		return Skipped(Viol("no-completion", "", "first run: %s", endDesc(inc1)))
+	}
+	before := inc1.Sim.FS.Snapshot()
+	w2 := *w
+	w2.Twin = shape == 0
+	inc2 := RunInc(&w2, c.Tape, before, inc1.Sim.FS.NextIno, IncOpts{KillAt: -1, Strategy: strategyOf(c.Tape), Trace: c.Trace})
+	c.Absorb(inc2)
+	c.Tasks = max(c.Tasks, 2)
+	if v, ok := inconclusiveEnd(inc2); ok {
+		return v
+	}
+	if st := execKeys(inc2.Sim.Shell.Trace, "start", 0); len(st) > 0 {
+		return Viol("rerun-executed", what, "second run of a completed workflow (%s) executed command(s): %v", what, st)
+	}
+	if !completedOK(inc2) {
+		return Viol("rerun-no-completion", what, "second run of a completed workflow (%s) did not complete: %s", what, endDesc(inc2))
+	}
+	bf, af := WorkFiles(before), WorkFiles(inc2.Sim.FS.Root)
+	for p, x := range bf {
+		if x.Kind != simrt.KFile || strings.HasSuffix(p, ".audit.json") {
+			continue
+		}
+		y, ok := af[p]
+		if !ok || y.Ino != x.Ino || y.Mtime != x.Mtime || string(y.Data) != string(x.Data) {
+			return Viol("rerun-modified", what, "second run (%s) changed %s", what, p)
+		}
+	}
+	for p, y := range af {
+		if _, ok := bf[p]; !ok && y.Kind == simrt.KFile && !strings.HasSuffix(p, ".audit.json") {
+			return Viol("rerun-modified", what, "second run (%s) produced a new file %s", what, p)
+		}
+	}
+	return OK()
 }
 
 // inPlaceCase: a process whose declared output path IS its input path
